@@ -7,6 +7,7 @@ PROP = dict(
               "Shangrla.C14.file_readers", "Shangrla.C14.file_orders_agree",
               "Shangrla.C14.file_mean_gt_half_iff_tally"],
     groups={"irvballot": (12100, 73200)},
+    boost=2.0,   # quick-tier budget factor when the anchored sources changed (default 5): keeps the boosted run near 2 min
     assumptions=[
         "nen_agree / mean_gt_half_iff_tally_nen / file_*: every ranked candidate belongs to the contest's candidate list "
         "(the property's quantifier: rankings over the candidate set). Outside it the two sides differ "
